@@ -70,6 +70,27 @@ def run(pid, tier, seed):
             log("NOTE model-drift (not part of C01): %s %s" % (f["scenario"][0].get("kind"), json.dumps(f["first_unmatched"])))
     else:
         rep.notes.append("auxiliary harness (queue/life cycle/resolver) did not run: " + out[-300:])
+    # vnet.UDPProxy between virtual clients and a real loopback server (specs/proxy), notes only
+    try:
+        vlib.inject(repo, {"proxy": "vnet"})
+        tp3 = os.path.join(d, "proxy.trace")
+        rc, out, _ = vlib.go_test(repo, "./vnet/", "^TestVerifUDPProxy$", synctest=False, timeout=600,
+                                  env={"VERIF_TRACE": tp3, "VERIF_SEED": seed, "VERIF_RUNS": 4 if not big else 24})
+        if rc == 0:
+            r3 = vlib.run_tlc("proxy", "MC_Proxy", "MC_Proxy.cfg", workers=2)
+            if r3.ok:
+                rep.add_tlc(r3)
+            pl = vlib.read_ndjson(tp3)
+            p_ok, p_fails, _ = vlib.validate_scenarios("proxy", "TraceProxy", "TraceProxy.cfg", pl, batch=40000)
+            rep.extra["aux_udpproxy_runs_validated"] = p_ok
+            rep.extra["aux_udpproxy_drift"] = [f["first_unmatched"] for f in p_fails]
+            for f in p_fails:
+                rep.notes.append("NOTE model-drift (UDPProxy, not part of C01): " + json.dumps(f["first_unmatched"]))
+                log("NOTE model-drift (UDPProxy, not part of C01): " + json.dumps(f["first_unmatched"]))
+        else:
+            rep.notes.append("auxiliary UDPProxy harness did not run: " + out[-300:])
+    except vlib.Inconclusive as e:     # an auxiliary run never decides C01
+        rep.notes.append("auxiliary UDPProxy run inconclusive: " + str(e)[:200])
     if not fails:
         s0 = [dict(e) for e in scs[1][1]]
         i = [j for j, e in enumerate(s0) if e["ev"] == "recv"][3]
